@@ -103,19 +103,25 @@ def work(arg):
     pa = zckref.parse(a) if a is not None else None
     pb = zckref.parse(b)
     job = ["a %s" % (a.hex() if a is not None else "-"), "b %s" % b.hex()]
-    for iname, init, limit, style in cases:
-        job.append("case init=%s limit=%d style=%d" % (init.hex() or "-", limit, style))
+    for cc in cases:
+        iname, init, limit, style = cc[:4]
+        job.append("case init=%s limit=%d style=%d" % (init.hex() or "-", limit, style) + (" abort=%d" % cc[4] if len(cc) > 4 else ""))
     cs = core.drv("update", "\n".join(job) + "\n", timeout=3000)
     res = {"n": 0, "tr": 0, "partial": 0, "viol": [], "outcomes": set()}
     nreal = sum(1 for c in pb.chunks if c.clen > 0)
-    for c, (iname, init, limit, style) in zip(cs, cases):
+    for c, cc in zip(cs, cases):
+        iname, init, limit, style = cc[:4]
+        abort = cc[4] if len(cc) > 4 else None
         res["n"] += 1
         u = c.first("U")
         case = {"aname": aname, "a": a.hex() if a is not None else None, "bname": bname, "b": b.hex(), "iname": iname, "init": init.hex(),
-                "limit": limit, "style": style}
+                "limit": limit, "style": style, "abort": abort}
         klass = {"check": "C04", "init": iname.rstrip("0123456789"), "source": "none" if a is None else ("same" if a == b else "other"),
                  "limit": "unlimited" if limit < 0 else "limited"}
-        what0 = "old=%s new=%s initial-target=%s limit=%d style=%d" % (aname, bname, iname, limit, style)
+        what0 = "old=%s new=%s initial-target=%s limit=%d style=%d" % (aname, bname, iname, limit, style) + (
+            " connection-dropped-after=%d" % abort if abort is not None else "")
+        if abort is not None:
+            klass["dropped"] = True
         if not c.done or u is None:
             res["viol"].append((dict(klass, predicate="crash-or-hang"), "%s: %s" % (what0, c.status()), case))
             continue
@@ -125,7 +131,19 @@ def work(arg):
         if 0 < fetched and u["scan"].count("+") + u["copy"].count("+") > 1:
             res["partial"] += 1
         res["outcomes"].add((u["status"], min(len(reqs), 3)))
-        v = judge(a, b, pa, pb, init, u, damaged)
+        if abort is not None and c.done and u is not None:
+            # the first chunk response is cut off and the client goes round the loop again with the same zckDL: the update
+            # must still end with the new file (what is requested again after a dropped connection is not judged)
+            if u["status"] == "10":
+                v = ("does-not-terminate", "more than #chunks+5 requests: %s" % u["reqs"])
+            elif u["status"] != "0":
+                v = ("update-fails", "status %s (%s) requests %s" % (u["status"], core.unhex(u.get("uerr", "-")).decode("latin1"), u["reqs"]))
+            elif core.unhex(u["tfile"]) != b:
+                v = ("target-differs-from-new-file", "")
+            else:
+                v = None
+        else:
+            v = judge(a, b, pa, pb, init, u, damaged)
         if v:
             res["viol"].append((dict(klass, predicate=v[0], source="damaged" if damaged else klass["source"]), "%s: %s" % (what0, v[1]), case))
     return res
@@ -255,6 +273,13 @@ def run(ctx):
                          for lim in (1, 2, 3, -1) for style in (0, 1)]
                 jobs.append(("%s:%s" % (aw, c.name()) if aw is not None else "absent", a, "%s:%s" % (bw, c.name()), b, cases))
                 npairs += 1
+                # a connection that drops after every number of body bytes of the first chunk response, then the same zckDL again
+                if bw == lwords[0] or thorough:
+                    absent = [x for x in inits(a, b, pb) if x[0] == "absent"][0]
+                    for lim, style in ((2, 0), (-1, 1)) + (((3, 1), (1, 0)) if thorough else ()):
+                        drops = [(absent[0], absent[1], lim, style, n) for n in range(0, 700)]
+                        for ch in core.chunks(drops, 175):
+                            jobs.append(("%s:%s" % (aw, c.name()) if aw is not None else "absent", a, "%s:%s" % (bw, c.name()), b, ch))
     ctx.bounds = {"long_words": lwords, "words": "<= 3 letters over %s (and the empty content)" % alpha, "pairs": npairs, "configurations": [c[0] for c in combos],
                   "limits": limits, "initial_targets": "absent, A, B, B with each chunk zeroed, garbage, B+50 bytes, B cut in the last chunk, header only"}
     ctx.rule = "case = (old file, new file, limit, spelling, initial target); non-trivial = run that reused some chunks and fetched others"
@@ -273,5 +298,6 @@ def replay(case, quiet=True):
     if case.get("real"):
         return {"violated": True, "detail": "real-zckdl case: re-run ./vf check C04 --tier thorough"}
     a = bytes.fromhex(case["a"]) if case["a"] else None
-    r = work((case["aname"], a, case["bname"], bytes.fromhex(case["b"]), [(case["iname"], bytes.fromhex(case["init"]), case["limit"], case["style"])]))
+    r = work((case["aname"], a, case["bname"], bytes.fromhex(case["b"]), [(case["iname"], bytes.fromhex(case["init"]), case["limit"], case["style"]) +
+                                                                             ((case["abort"],) if case.get("abort") is not None else ())]))
     return {"violated": bool(r["viol"]), "detail": [v[1] for v in r["viol"]]}
